@@ -901,9 +901,18 @@ func (s *vfSwapConn) SetWriteDeadline(time.Time) error { return nil }
 
 func vfC15Listener(t *testing.T, res *vfResult, rounds int) {
 	pki := vfGetPKI()
-	for round := 0; round < rounds; round++ {
+	for round := 0; round < rounds+2; round++ {
 		ver := []string{"12", "13"}[round%2]
-		so := vfSO(append(vfVerOpts(ver), WithCertificates(pki.Leaf("ecdsa", "server")), WithConnectionIDGenerator(RandomCIDGenerator(8)))...)
+		cidLen, shape := 8, ""
+		if round >= rounds {
+			// two extra rounds with a 20-byte connection ID: with the default (hybrid) key share the DTLS 1.3
+			// ServerHello then exceeds the MTU and leaves in fragments
+			cidLen = 20
+			if ver == "13" {
+				shape = ":serverhello-fragmented"
+			}
+		}
+		so := vfSO(append(vfVerOpts(ver), WithCertificates(pki.Leaf("ecdsa", "server")), WithConnectionIDGenerator(RandomCIDGenerator(cidLen)))...)
 		so = append(so, WithInsecureSkipVerifyHello(round%4 < 2))
 		ln, err := ListenWithOptions("udp", &net.UDPAddr{IP: net.IPv4(127, 0, 0, 1)}, so...)
 		if err != nil {
@@ -1050,7 +1059,7 @@ func vfC15Listener(t *testing.T, res *vfResult, rounds int) {
 					if gotOwner {
 						res.Count("listener_migrations_delivered", 1)
 					} else {
-						res.Violate("C15:listener-did-not-route-by-cid:v"+ver, fmt.Sprintf("payload %q sent from a fresh socket carrying the connection's ID never surfaced on the owning connection", pl), map[string]any{"round": round, "client": i, "hop": hop})
+						res.Violate("C15:listener-did-not-route-by-cid:v"+ver+shape, fmt.Sprintf("payload %q sent from a fresh socket carrying the connection's %d-byte ID never surfaced on the owning connection", pl, cidLen), map[string]any{"round": round, "client": i, "hop": hop})
 					}
 				}
 			}
